@@ -390,6 +390,10 @@ namespace c04
     C04_FN3(X)
 #undef X
 
+    // abs(INT_MIN) is undefined on int: same domain as unary minus
+    template <class Op> struct dom_of { enum { value = Op::dom }; };
+    template <> struct dom_of<fn_abs> { enum { value = D_NEG }; };
+
     // ------------------------------------------------------------------ registration: operand-kind patterns
     inline void add_case(const char* w, const char* e, const char* op, const std::string& pat, int kind, int arity, int dom,
                          bool is_int, bool traced, EvalFn ev, RefFn rf)
@@ -410,7 +414,7 @@ namespace c04
         template <class K1> static void one(no) {}
         template <class K1> static void one(yes)
         {
-            add_case(W::name(), elem<E>::name(), Op::nm(), std::string(1, K1::c()), Op::kind, 1, Op::dom, elem<E>::is_int, elem<E>::traced,
+            add_case(W::name(), elem<E>::name(), Op::nm(), std::string(1, K1::c()), Op::kind, 1, dom_of<Op>::value, elem<E>::is_int, elem<E>::traced,
                      &ev1<W, E, Op, K1>, &rf1<E, Op>);
         }
         static void all(no) {}
@@ -870,14 +874,19 @@ namespace c04
         if (verbose)
             std::printf("%s -> %s calls=%ld eq_calls=%ld would_trap=%ld intact=%d self=%d\n", describe(c, v, p).c_str(), resstr(c, o).c_str(), o.calls,
                         o.eq_calls, o.would_trap, o.intact, o.self);
-        else if (!all_present || c.kind == K_SELECT)
+        else
         {
-            // a few actual cases for the evidence file
-            static int n_sample = 0;
-            if (n_sample < 3 && ((g_eval % 977) == 1))
+            // a few actual cases for the evidence file: one with a missing operand, one fully present, one forked, one compound/select
+            static bool s_missing = false, s_present = false, s_forked = false, s_other = false;
+            bool* slot = nullptr;
+            if (forked) slot = &s_forked;
+            else if (c.kind == K_CMPD || c.kind == K_SELECT || c.kind == K_EQ) { if (!all_present && (g_eval % 53) == 7) slot = &s_other; }
+            else if (!all_present) { if ((g_eval % 101) == 5) slot = &s_missing; }
+            else if ((g_eval % 211) == 3) slot = &s_present;
+            if (slot && !*slot)
             {
-                ++n_sample;
-                vf::sample(describe(c, v, p) + " -> " + resstr(c, o) + (c.traced ? ", traced evaluations=" + vf::str(o.calls) : "") + (forked ? " [forked child]" : ""), 3);
+                *slot = true;
+                vf::sample(describe(c, v, p) + " -> " + resstr(c, o) + (c.traced ? ", traced evaluations=" + vf::str(o.calls) : "") + (forked ? " [forked child]" : ""), 4);
             }
         }
     }
